@@ -468,6 +468,8 @@ func h265RtCase(c *Case, addDONL, skip bool, mtu int, frames [][]h265Framed) {
 		buf := h265FrameBytes(f)
 		var r h265Out
 		r.panicked = try(func() { r.out = p.Payload(uint16(mtu), buf) })
+		// the sender appends its trailer (auth tag, padding) to every payload in place
+		scribbleSpare(r.out...)
 		all = append(all, r)
 	}
 	held := make([][]h265Held, len(frames))
